@@ -20,7 +20,7 @@ T = {
             "positions; all three rotation code paths observed taken.", "5/C04"),
     "C05": ("exploration", "metamorphic monitor: explicit sums of leaf fields / scaled excitations", "", "5/C05"),
     "C06": ("exploration", "batch-vs-solo monitor over every output element", "", "5/C06"),
-    "C07": ("exploration", "cross-interface equality monitor (OO, functional, core, dataframe)", "", "5/C07"),
+    "C07": ("exploration", "cross-interface equality monitor (OO, functional, core, dataframe, multi-source calls)", "", "5/C07"),
     "C08": ("fault_enumeration", "deep-digest state monitor + read-only input arrays + source-free failpoints "
             "(sys.monitoring) at every call-bearing line", "Public-API fault matrix and exhaustive crash-point "
             "enumeration of the tiling section.", "5/C08"),
@@ -28,16 +28,16 @@ T = {
     "C10": ("exploration", "relative-pose invariant monitor over collection trees", "", "5/C10"),
     "C11": ("exploration", "forest-invariant monitor over the universe of objects after every (also raising) "
             "operation", "", "5/C11"),
-    "C12": ("exploration", "metamorphic monitor: exact power-of-two rescaling of all lengths", "", "5/C12"),
-    "C13": ("exploration", "identity monitors: whole vs parts, class vs class", "", "5/C13"),
+    "C12": ("exploration", "metamorphic monitor: exact power-of-two rescaling of all lengths (single sources, mesh status, whole multi-source setups)", "", "5/C12"),
+    "C13": ("exploration", "identity monitors: whole vs parts, class vs class, mesh conversions at sizes 1e-6..1e3", "", "5/C13"),
     "C14": ("exploration", "adaptive quadrature of flux / circulation with the live getB/getH as integrand", "", "5/C14"),
     "C15": ("exploration", "non-finite sanitizer + loop back-edge budget (sys.monitoring) on special-set observers",
             "", "5/C15"),
-    "C16": ("exploration", "mesh zoo with ground truth by construction + independent checkers", "", "5/C16"),
+    "C16": ("exploration", "mesh zoo with ground truth by construction + independent checkers, orientation reached by constructor / late reorient_faces() / after show()", "", "5/C16"),
     "C17": ("exploration", "spec-table monitor on constructor/setter boundary with traceback classification and "
             "alias sanitizer", "", "5/C17"),
     "C18": ("exploration", "object-graph alias sanitizer + mutation/digest monitor", "", "5/C18"),
-    "C19": ("exploration", "draw-model monitor on plotly/generic traces + digest of objects/defaults", "", "5/C19"),
+    "C19": ("exploration", "draw-model monitor on plotly/generic traces (bodies, conductors, paths, animation frames, mesh status displays) + digest of objects/defaults", "", "5/C19"),
     "C20": ("exploration", "style precedence resolver vs effective style observed at point of use", "", "5/C20"),
 }
 NOTES = {}
